@@ -368,6 +368,23 @@ func preludeStrings() string {
 `
 }
 
+// Field model of strings.Split for one-character separators (T2): nfields(s, sep) / field(s, sep, k).
+// The laws are the homomorphism of splitting over concatenation; literals get their facts from vc.fieldFacts.
+func preludeFields() string {
+	return `(declare-fun gs.nf (Str Str) Int)
+(declare-fun gs.fld (Str Str Int) Str)
+(assert (forall ((s Str) (p Str)) (! (>= (gs.nf s p) 1) :pattern ((gs.nf s p)))))
+(assert (forall ((a Str) (b Str) (p Str)) (! (=> (= (gs.len p) 1) (= (gs.nf (gs.cat a b) p) (- (+ (gs.nf a p) (gs.nf b p)) 1))) :pattern ((gs.nf (gs.cat a b) p)))))
+(assert (forall ((a Str) (b Str) (p Str) (k Int)) (! (=> (and (= (gs.len p) 1) (<= 0 k) (< k (- (+ (gs.nf a p) (gs.nf b p)) 1)))
+  (= (gs.fld (gs.cat a b) p k)
+     (ite (< k (- (gs.nf a p) 1)) (gs.fld a p k)
+       (ite (= k (- (gs.nf a p) 1)) (gs.cat (gs.fld a p (- (gs.nf a p) 1)) (gs.fld b p 0))
+         (gs.fld b p (+ (- k (gs.nf a p)) 1)))))) :pattern ((gs.fld (gs.cat a b) p k)))))
+(assert (forall ((s Str) (p Str)) (! (=> (= (gs.nf s p) 1) (= (gs.fld s p 0) s)) :pattern ((gs.fld s p 0)))))
+(assert (forall ((s Str) (p Str) (k Int)) (! (=> (and (= (gs.len p) 1) (<= 0 k) (< k (gs.nf s p))) (= (gs.nf (gs.fld s p k) p) 1)) :pattern ((gs.fld s p k)))))
+`
+}
+
 // pow2big: unbounded 2^n for n>=0 as uninterpreted with axioms (used only in the string value model).
 func preludePow2big() string {
 	return `(declare-fun pow2big (Int) Int)
